@@ -14,6 +14,7 @@ pub fn profile(name: &str) -> Option<Profile> {
         wide_timing: false,
         force_disk: false,
         rebuild_checks: false,
+        rrdp_swarm: false,
     };
     Some(match name {
         "c01" => Profile {
@@ -99,6 +100,26 @@ pub fn profile(name: &str) -> Option<Profile> {
                 ..GenCfg::default()
             },
             rebuild_checks: true,
+            ..base
+        },
+        "c11" => Profile {
+            name: "c11",
+            oracles: Oracles { c11: true, ..Default::default() },
+            gen_cfg: GenCfg {
+                w_config: 45,
+                w_entitlement: 10,
+                w_removal: 5,
+                w_keyroll: 8,
+                w_maintenance: 14,
+                w_clock: 14,
+                w_rrdp: 14,
+                max_advance: 4 * 3600,
+                pump_pct: 70,
+                ..GenCfg::default()
+            },
+            min_ops: 20,
+            max_ops: 60,
+            rrdp_swarm: true,
             ..base
         },
         "all" => Profile {
